@@ -232,3 +232,43 @@ Definition sais_alphabet (opt : bool) (t : list N) : nat :=
   if opt then 256 else match t with [] => 0 | _ => S (N.to_nat (fold_right N.max 0%N t)) end.
 Definition sais (opt : bool) (t : list N) : option (list nat) :=
   sais_go 101 t (sais_alphabet opt t).
+
+(* ---------- the intermediate arrays, level by level (compared with the implementation's trace hook) ---------- *)
+(* one level = [[depth; n; alphabet; num_names; recursed]; suffix_types (0/1); lms_suffixes; first pass; names].
+   The level list needs only the first induced-sort pass of each level. *)
+Definition bools_n (l : list bool) : list N := map (fun b : bool => if b then 1%N else 0%N) l.
+Definition nats_n (l : list nat) : list N := map N.of_nat l.
+Fixpoint sais_levels (fuel depth : nat) (text : list N) (alpha : nat) : list (list (list N)) :=
+  match fuel with
+  | 0 => []
+  | S f =>
+      let n := length text in
+      if (MAX_TEXT_SIZE <? N.of_nat n)%N then []
+      else if n <=? 1 then []
+      else
+        let types := classify text in
+        let flags := lms_flags types in
+        let lms := lms_positions flags in
+        match bucket_counts alpha text with
+        | None => []
+        | Some bucket =>
+            let '(heads, tails) := boundaries bucket 0 in
+            match induced_sort text lms types heads tails with
+            | None => []
+            | Some sa1 =>
+                if length lms <=? 1 then
+                  [[nats_n [depth; n; alpha; 0; 0]; bools_n types; nats_n lms; nats_n sa1; []]]
+                else
+                  match name_lms text flags lms (compact_lms sa1 flags) with
+                  | None => []
+                  | Some (names, num_names) =>
+                      let rec := num_names <? length lms in
+                      [nats_n [depth; n; alpha; num_names; if rec then 1 else 0];
+                       bools_n types; nats_n lms; nats_n sa1; nats_n names]
+                      :: (if rec then sais_levels f (S depth) (map N.of_nat names) num_names else [])
+                  end
+            end
+        end
+  end.
+Definition sais_trace (opt : bool) (t : list N) : list (list (list N)) :=
+  sais_levels 101 0 t (sais_alphabet opt t).
